@@ -155,37 +155,52 @@ func (c *check) plan(tier string) {
 	kinds := [][]blockSpec{{{kP, 5}, {kDivP, 5}}, {{kP, 3}, {kTable, 9}}, {{kUL, 5}, {kP, 3}}, {{kSpans, 9}, {kP, 3}}, {{kP, 9}}, {{kTable, 5}},
 		{{kP, 1}, {kP, 5}, {kDivP, 3}}, {{kDivP, 9}}, {{kUL, 9}}, {{kTable, 9}, {kP, 3}}}
 	kindsT := append(append([][]blockSpec(nil), kinds...), []blockSpec{{kUL, 5}, {kSpans, 5}})
-	// second generation: inline structures (a span that ends with a span, glued spans, footnotes)
-	kindsExt := [][]blockSpec{{{kGlue, 5}, {kP, 3}}, {{kP, 3}, {kGlue, 9}}, {{kGlue, 3}}, {{kSpans, 3}, {kP, 3}}, {{kSpans, 1}},
-		{{kNote, 3}, {kNote, 3}}, {{kP, 3}, {kNote, 5}}, {{kNote, 9}}}
-	kindsBoth := append(append([][]blockSpec(nil), kinds...), kindsExt...)
+	// second generation: inline structures (glued spans, footnotes, a span that ends with a span)
+	kindsExt := [][]blockSpec{{{kGlue, 5}, {kP, 3}}, {{kP, 3}, {kGlue, 9}}, {{kGlue, 3}}, {{kNote, 3}, {kNote, 3}}, {{kP, 3}, {kNote, 5}}, {{kNote, 9}}}
+	spansExt := [][]blockSpec{{{kSpans, 3}, {kP, 3}}, {{kSpans, 1}}}
+	// the skeletons the pseudo-element / inner-element entries are applied to
+	kindsGen2 := [][]blockSpec{{{kP, 5}, {kDivP, 5}}, {{kP, 3}, {kTable, 9}}, {{kUL, 5}, {kP, 3}}, {{kSpans, 9}, {kP, 3}}, {{kP, 1}, {kP, 5}, {kDivP, 3}}}
+	kindsGen2 = append(append(kindsGen2, kindsExt...), spansExt...)
 	primaryExt := [][]blockSpec{{{kGlue, 5}, {kDivP, 5}}}
 	// a flow of four blocks: room for an out-of-flow block between two in-flow siblings, before a block with an avoided break
 	sandwich := [][]blockSpec{{{kP, 1}, {kP, 1}, {kP, 1}, {kP, 3}}}
 	menuSandwich := menuNamed("break-before-page", "break-before-avoid", "break-before-left", "break-after-page", "break-after-avoid",
 		"break-after-left", "break-inside-avoid", "float", "absolute", "fixed")
 	menuQ := append(append([]int(nil), menuGen1Quick...), menuGen2...)
+	// thinner lists of the inline skeletons (two of the four word-count pairs)
+	var extQ [][]blockSpec
+	for _, sk := range allExt {
+		if len(sk) == 2 && (sk[0].N == 1 || sk[0].N == 5) {
+			continue
+		}
+		extQ = append(extQ, sk)
+	}
 	if tier == "quick" {
 		c.groups = []*group{
 			{Name: "L0-all", Skeletons: all, Widths: widthsAll, Level: 0, Menu: menuGen1Quick, Sweep: full},
-			{Name: "L0-inline", Skeletons: allExt, Widths: widthsExt, Level: 0, Menu: menuGen1Quick, Sweep: full},
+			{Name: "L0-inline", Skeletons: extQ, Widths: widthsExt, Level: 0, Menu: menuGen1Quick, Sweep: full},
 			{Name: "L1-kinds", Skeletons: kinds, Widths: widthsAll, Level: 1, Menu: menuGen1Quick, Sweep: full},
-			{Name: "L1-inline-kinds", Skeletons: kindsExt, Widths: widthsExt, Level: 1, Menu: menuGen1Quick, Sweep: full},
-			{Name: "L1-pseudo-inner", Skeletons: kindsBoth, Widths: widthsExt, Level: 1, Menu: menuGen2, Sweep: full},
+			{Name: "L1-inline-kinds", Skeletons: kindsExt, Widths: []int{30, 50, 80}, Level: 1, Menu: menuGen1Quick, Sweep: full},
+			{Name: "L1-pseudo-inner", Skeletons: kindsGen2, Widths: []int{30, 50, 80}, Level: 1, Menu: menuGen2, Sweep: full},
 			{Name: "L2-primary", Skeletons: primary, Widths: []int{50}, Level: 2, Menu: menuGen1Quick, Sweep: full},
 			{Name: "L2-secondary", Skeletons: secondary, Widths: []int{50}, Level: 2, Menu: menuGen1Quick, Sweep: full},
 			{Name: "L2-pseudo-inner", Skeletons: primaryExt, Widths: []int{50}, Level: 2, Menu: menuQ, Need: menuGen2, Sweep: lite},
 			{Name: "L2-four-blocks", Skeletons: sandwich, Widths: []int{50}, Level: 2, Menu: menuSandwich, Sweep: lite},
 		}
 	} else {
+		one, _, three := skeletonLists(0, nKinds)
+		gen2T := append(append(append([][]blockSpec(nil), one...), three...), kindsT...)
+		gen2T = append(gen2T, spansExt...)
+		l2Ext := [][]blockSpec{primaryExt[0], primary[0], secondary[0], {{kNote, 3}, {kNote, 3}}, {{kSpans, 3}, {kP, 3}}, {{kUL, 5}, {kP, 3}}}
 		c.groups = []*group{
 			{Name: "L0-all", Skeletons: all, Widths: widthsAll, Level: 0, Menu: menuGen1, Sweep: full},
 			{Name: "L0-inline", Skeletons: allExt, Widths: widthsExt, Level: 0, Menu: menuGen1, Sweep: full},
 			{Name: "L1-all", Skeletons: all, Widths: widthsAll, Level: 1, Menu: menuGen1, Sweep: full},
-			{Name: "L1-inline-all", Skeletons: allExt, Widths: widthsExt, Level: 1, Menu: menuAll, Sweep: full},
-			{Name: "L1-pseudo-inner", Skeletons: all, Widths: widthsAll, Level: 1, Menu: menuGen2, Sweep: full},
+			{Name: "L1-inline-all", Skeletons: extQ, Widths: []int{30, 50, 80}, Level: 1, Menu: menuGen1, Sweep: full},
+			{Name: "L1-pseudo-inner", Skeletons: gen2T, Widths: widthsAll, Level: 1, Menu: menuGen2, Sweep: full},
+			{Name: "L1-pseudo-inner-inline", Skeletons: extQ, Widths: []int{50, 80}, Level: 1, Menu: menuGen2, Sweep: full},
 			{Name: "L2-kinds", Skeletons: kindsT, Widths: widthsAll, Level: 2, Menu: menuGen1, Sweep: full},
-			{Name: "L2-pseudo-inner", Skeletons: kindsBoth, Widths: []int{50, 80}, Level: 2, Menu: menuAll, Need: menuGen2, Sweep: lite},
+			{Name: "L2-pseudo-inner", Skeletons: l2Ext, Widths: []int{50, 80}, Level: 2, Menu: menuAll, Need: menuGen2, Sweep: lite},
 			{Name: "L2-four-blocks", Skeletons: sandwich, Widths: widthsAll, Level: 2, Menu: menuSandwich, Sweep: full},
 			{Name: "L3-primary", Skeletons: primary, Widths: []int{50}, Level: 3, Menu: menuGen1Quick, Sweep: full},
 		}
